@@ -82,7 +82,8 @@ def kverif(args, timeout=3600, env_extra=None):
 
 def _tlc(tla_dir, module, cfg, workers, timeout, env_extra=None, extra=None, tag="tlc", heap=None):
     meta = workdir("meta-" + tag)
-    java = ["java", "-XX:+UseParallelGC"]
+    # modules shared between families (Sparql.tla, ...) are found through the TLA-Library path
+    java = ["java", "-XX:+UseParallelGC", "-DTLA-Library=" + os.path.join(TLA, "sparql")]
     if heap:
         java.append("-Xmx" + heap)
     cmd = ["timeout", str(timeout)] + java + ["-cp", JAR, "tlc2.TLC", "-workers", str(workers),
@@ -163,15 +164,16 @@ def tlc_trace(family, module, cfg, trace, timeout=3600, tag=None, heap="4g", def
                          tag=tag or (family + "-trace"), heap=heap)
     if rc == 124:
         raise ToolError(f"TLC trace validation timeout ({family}/{module})")
-    fails, diffs, infos = [], [], []
-    for line in out.splitlines():
-        if line.startswith('<<"FAIL"'):
-            fails.append(_tuple(line))
-        elif line.startswith('<<"MODELDIFF"'):
-            diffs.append(_tuple(line))
-        elif line.startswith('<<"INFO"'):
-            infos.append(_tuple(line))
-    stuck = [l for l in out.splitlines() if l.startswith('<<"STUCK"')]
+    fails, diffs, infos, stuck = [], [], [], []
+    for tag_, body in _printed_tuples(out):
+        if tag_ == "FAIL":
+            fails.append(body)
+        elif tag_ == "MODELDIFF":
+            diffs.append(body)
+        elif tag_ == "INFO":
+            infos.append(body)
+        elif tag_ == "STUCK":
+            stuck.append(body)
     ok = "Model checking completed. No error has been found." in out
     if stuck or not ok:
         sys.stdout.write(out[-6000:])
@@ -179,6 +181,35 @@ def tlc_trace(family, module, cfg, trace, timeout=3600, tag=None, heap="4g", def
                         f"(modelling or tooling error, not a verdict): {stuck[:1]}")
     gen, dist = parse_stats(out)
     return dict(fail=fails, modeldiff=diffs, info=infos, states=dist, wall=wall, out=out)
+
+
+def _printed_tuples(out):
+    """Tuples printed by PrintT whose first element is a tag string; TLC wraps long tuples over several lines."""
+    res = []
+    for m in re.finditer(r'<<\s*"(FAIL|MODELDIFF|INFO|STUCK)"', out):
+        depth, i = 0, m.start()
+        while i < len(out) - 1:
+            two = out[i:i + 2]
+            if two == "<<":
+                depth += 1
+                i += 2
+                continue
+            if two == ">>":
+                depth -= 1
+                i += 2
+                if depth == 0:
+                    break
+                continue
+            if out[i] == '"':
+                j = i + 1
+                while j < len(out) and out[j] != '"':
+                    j += 2 if out[j] == "\\" else 1
+                i = j + 1
+                continue
+            i += 1
+        text = " ".join(out[m.start():i].split())
+        res.append((m.group(1), _tuple(text)))
+    return res
 
 
 def _tuple(line):
